@@ -21,7 +21,7 @@ STUBS = ["np.linalg.pinv (4x4) and np.linalg.solve -> exact inverse by adjugate 
 OUTSIDE = ["find_contact_surface on factory meshes (hundreds of tetrahedra x 28 half-plane pairs each)", "rounding"]
 BOUNDS = {"quick": "5 tetrahedron pairs from the corpus x 6 one-parameter sweeps (translations incl. axis-aligned stacking, rotations), Young's moduli {1e-2,1,1e2}, both argument orders",
           "thorough": "all corpus pairs x all sweeps x moduli"}
-WALL_BUDGET = {"quick": 360, "thorough": 900}
+WALL_BUDGET = {"quick": 300, "thorough": 600}
 EXPECTED_EXCEPTIONS = ()
 
 # corpus tetrahedra (dyadic) with linear potentials
